@@ -76,6 +76,16 @@ func makeShape(shape []vector2.Float64, path []vector3.Float64, close bool) mode
 		pers[i] = per
 	}
 
+	// The bend axis points to one side of the path in a left turn and to the
+	// other side in a right turn. Keep every ring on the side of the ring
+	// before it, otherwise the cross-section is turned upside down between
+	// two opposite bends and the strip between them is twisted.
+	for i := 1; i < len(path); i++ {
+		if pers[i].Dot(pers[i-1]) < 0 {
+			pers[i] = pers[i].Scale(-1)
+		}
+	}
+
 	vertices := make([]vector3.Float64, 0, len(path)*len(shape))
 	normals := make([]vector3.Float64, 0, len(path)*len(shape))
 	for i, p := range path {
